@@ -54,11 +54,23 @@ inductive Opr where
   | valueAccess            -- Value / SetValue / MutableValue: the stored SI value as a bare number
 deriving DecidableEq, Repr, Inhabited
 
+/-- Which named member an entry is (closed list; anything else is `other`). `comp k` is the typed
+accessor of stored component `k` (`x`, `yz`, ... in declared order; the symmetric aliases `yx`, `zx`,
+`zy` map to the stored slot). -/
+inductive Mem where
+  | other | zero | value | valueUnit | staticValue | mutableValue | setValue | create
+  | print | json | xml | yaml | dimensions | unit
+  | magnitude | magnitudeSquared | direction | angle | dot | cross | dyadic
+  | trace | determinant | transpose | cofactors | adjugate | inverse | isSymmetric
+  | comp (k : Nat) | setComp (k : Nat) | mutComp (k : Nat) | allComps | setAll | mutAll
+deriving DecidableEq, Repr, Inhabited
+
 /-- One traced entry point at one numeric format. -/
 structure Entry where
   id : String
   kind : Kind
   opr : Opr
+  mem : Mem
   cls : Nat                 -- class the entry belongs to (index into the class table; 0 = none)
   fm : Fm                   -- numeric format of the instantiation
   ufm : Option Fm           -- the other format, for mixed-format entries
@@ -77,6 +89,7 @@ structure ClassInfo where
   dims : Option Dim         -- `Q::Dimensions()`; `none` for the raw tensor types
   unitEnum : Nat            -- index of its unit type in the unit table (0 = dimensionless / none)
   dimensional : Bool
+  isDirection : Bool        -- Direction / PlanarDirection: stored value is kept normalised
 deriving Repr, Inhabited
 
 end PhQVerif
